@@ -220,6 +220,11 @@ def build_with_history(ctx, spec, mode, hseed, kw=None, prefer=None):
             if prefer:  # the report the calling check is about to judge (method name or callable taking the System)
                 H.call(prefer, so) if callable(prefer) else H.call(getattr(so, prefer))
 
+    def pref(so):
+        if prefer:
+            with H.quiet():
+                H.call(prefer, so) if callable(prefer) else H.call(getattr(so, prefer))
+
     if mode == "solve_then_move_leaf":
         leaves = [c for c in spec["comps"] if c["kind"] in S.LOADS]
         rng.shuffle(leaves)
@@ -296,6 +301,7 @@ def build_with_history(ctx, spec, mode, hseed, kw=None, prefer=None):
                 H.solve(so, **dict(kw or {}, energy=True))
                 if rng.random() < 0.5:
                     H.solve(so, **(kw or {}))
+            pref(so)
             eff = copy.deepcopy(spec)
             em = S.comp_map(eff)
             for n in changed:
@@ -318,6 +324,7 @@ def build_with_history(ctx, spec, mode, hseed, kw=None, prefer=None):
             so = fresh(spec)
             with H.quiet():
                 H.solve(so, **(kw or {}))
+            pref(so)
             rng.shuffle(leaves)
             pick = sorted(leaves[: rng.choice([2, 2, 3])], key=lambda c: spec["comps"].index(c))
             for lf in pick:
@@ -352,6 +359,7 @@ def build_with_history(ctx, spec, mode, hseed, kw=None, prefer=None):
             with H.quiet():
                 H.solve(so, **(kw or {}))
                 H.call(so.rail_rep)
+            pref(so)
             for c in pick:
                 so.change_comp(ren[c["name"]], comp=S.make_comp(ns, c), group=c.get("group", ""), rail=c.get("rail", ""))
                 if c.get("phase") is not None:
@@ -381,11 +389,15 @@ def build_with_history(ctx, spec, mode, hseed, kw=None, prefer=None):
                 a["loss"] = not a.get("loss", False)
             else:
                 a["rt"] = G.sig(abs(a.get("rt", 0.0)) * 4.0 + 7.0)
+            if rng.random() < 0.5:
+                # ... and another group label until then (a label, but drawings and the Group column follow it)
+                c["group"] = rng.choice([g_ for g_ in ("", "G1", "zz", "Analog") if g_ != c.get("group", "")])
             tuned.append(c["name"])
         if tuned:
             so = fresh(detour)
             with H.quiet():
                 H.solve(so, **(kw or {}))
+            pref(so)
             for n in tuned:
                 c = cm[n]
                 so.change_comp(n, comp=S.make_comp(ns, c), group=c.get("group", ""), rail=c.get("rail", ""))
